@@ -126,3 +126,232 @@ Proof.
   - intros W q Hq. apply in_app_or in Hq. destruct Hq as [Hq|[<-|[]]]; [auto|apply Hw; exact W].
   - exact Hpo.
 Qed.
+
+Lemma taint_ids_ids ids qs : map q_id (taint_ids ids qs) = map q_id qs.
+Proof. apply (map_ids (taint_fn ids)). apply keeps_taint_fn. Qed.
+
+(* ---------- the operations one by one ---------- *)
+Lemma INV_quota_add cfg wf st id parent lend decl mx mindecl mn w :
+  INV cfg wf st ->
+  find_quota id (quotas st) = None -> (id <=? 0) = false ->
+  (parent = 0 \/ exists P, find_quota parent (quotas st) = Some P) ->
+  (wf = true -> quota_okb (mkQuota id parent lend decl mx mindecl mn w vzero vzero vzero false) = true) ->
+  INV cfg wf
+    (mkState (refresh (map q_id (path st parent))
+                ((if chk_parent cfg then quotas st else taint_ids [parent] (quotas st))
+                 ++ [mkQuota id parent lend decl mx mindecl mn w vzero vzero vzero false])
+                (pods st))
+             (pods st) (total st)).
+Proof.
+  intros I Hfresh Hid Hpar Hok. destruct st as [qs0 ps tot]. cbn [quotas pods total] in *.
+  set (nq := mkQuota id parent lend decl mx mindecl mn w vzero vzero vzero false) in *.
+  set (qs := if chk_parent cfg then qs0 else taint_ids [parent] qs0).
+  assert (Eids : map q_id qs = map q_id qs0).
+  { unfold qs. destruct (chk_parent cfg); [reflexivity|apply taint_ids_ids]. }
+  assert (I1 : INV cfg wf (mkState qs ps tot)).
+  { unfold qs. destruct (chk_parent cfg); [exact I|apply INV_taint; exact I]. }
+  apply INV_refresh with (ps := ps); [|exact (inv_pods _ _ _ I)].
+  apply INV_append; try exact I1.
+  - rewrite Eids. apply find_quota_none. exact Hfresh.
+  - cbn. lia.
+  - cbn. intro Hp. rewrite Eids. destruct Hpar as [Hpar|[P HP]]; [contradiction|].
+    apply find_quota_some in HP. destruct HP as [HP1 HP2]. rewrite <- HP2. apply in_map. exact HP1.
+  - intros Hc x Hx Hxid. cbn in Hxid. unfold qs in Hx. rewrite Hc in Hx.
+    apply (taint_ids_tainted [parent] qs0 x Hx). left. symmetry. exact Hxid.
+  - intros d _. cbn. rewrite vget_vzero. lia.
+  - intro W. split; [|apply Hok; exact W].
+    intros _ d Hd. cbn. rewrite vget_vzero.
+    destruct (quota_okb_spec nq (Hok W) d) as [H0 _]. apply H0. exact Hd.
+Qed.
+
+Lemma INV_quota_update cfg wf st id q0 mx mindecl mn w c_new (b : bool) ids :
+  INV cfg wf st -> find_quota id (quotas st) = Some q0 ->
+  (wf = true -> quota_okb (set_spec q0 mx mindecl mn w) = true) ->
+  (forall d, mget (q_decl q0) d = true -> vget c_new d <= Z.max 0 (vget mx d)) ->
+  INV cfg wf
+    (mkState
+       (let qs1 := map (fun q => if q_id q =? id
+                                 then set_taint (set_creq (set_spec q mx mindecl mn w) c_new)
+                                                (q_taint q || lowers q mx)
+                                 else q) (quotas st) in
+        if b then refresh ids qs1 (pods st) else qs1)
+       (pods st) (total st)).
+Proof.
+  intros I Hf Hok Hc. destruct st as [qs0 ps tot]. cbn [quotas pods total] in *. cbv zeta.
+  set (h := fun q => if q_id q =? id
+                     then set_taint (set_creq (set_spec q mx mindecl mn w) c_new)
+                                    (q_taint q || lowers q mx)
+                     else q).
+  assert (K : keeps h).
+  { intro q. unfold h. destruct (q_id q =? id); [cbn|auto].
+    repeat split. intro Ht. rewrite Ht. reflexivity. }
+  assert (Hq0 : forall q, In q qs0 -> (q_id q =? id) = true -> q = q0).
+  { intros q Hq E. apply Z.eqb_eq in E. apply find_quota_some in Hf. destruct Hf as [Hf1 Hf2].
+    apply (nodup_id_inj qs0); [exact (inv_nodup _ _ _ I)|exact Hq|exact Hf1|congruence]. }
+  assert (I1 : INV cfg wf (mkState (map h qs0) ps tot)).
+  { destruct I as [Hnd Hcr Hpar Hpex Hus Hokk Hpo]. cbn in *. constructor; cbn.
+    - rewrite (map_ids _ _ K). exact Hnd.
+    - apply forall_map; [exact Hcr|]. intros q Hq Hcq. unfold h.
+      destruct (q_id q =? id) eqn:E; [|exact Hcq].
+      rewrite (Hq0 q Hq E). intros d Hd. exact (Hc d Hd).
+    - apply par_map; assumption.
+    - apply pex_map; assumption.
+    - intro W. apply forall_map; [exact (Hus W)|]. intros q Hq Hu. unfold h.
+      destruct (q_id q =? id) eqn:E; [|exact Hu].
+      intro Ht. change (q_taint q || lowers q mx = false) in Ht.
+      apply orb_false_iff in Ht. destruct Ht as [Ht Hl].
+      intros d Hd. change (vget (q_used q) d <= vget mx d).
+      change (mget (q_decl q) d = true) in Hd.
+      specialize (Hu Ht d Hd). unfold lowers in Hl. rewrite any_dim_false in Hl.
+      specialize (Hl d). rewrite Hd in Hl. cbn in Hl. lia.
+    - intro W. apply forall_map; [exact (Hokk W)|]. intros q Hq Hqo. unfold h.
+      destruct (q_id q =? id) eqn:E; [|exact Hqo].
+      rewrite (Hq0 q Hq E). exact (Hok W).
+    - exact Hpo. }
+  destruct b; [|exact I1].
+  apply INV_refresh with (ps := ps); [exact I1|exact (inv_pods _ _ _ I)].
+Qed.
+
+Lemma nonneg_app ps p :
+  (forall x, In x ps -> vec_nonnegb (p_req x) = true) -> vec_nonnegb (p_req p) = true ->
+  forall x, In x (ps ++ [p]) -> vec_nonnegb (p_req x) = true.
+Proof.
+  intros H Hp x Hx. apply in_app_or in Hx. destruct Hx as [Hx|[<-|[]]]; auto.
+Qed.
+
+Lemma INV_pod_add cfg wf st id qn np req :
+  INV cfg wf st -> (wf = true -> vec_nonnegb req = true) ->
+  INV cfg wf (mkState (touch_request st (mkPod id qn req np false) (quotas st)
+                                     (pods st ++ [mkPod id qn req np false]))
+                      (pods st ++ [mkPod id qn req np false]) (total st)).
+Proof.
+  intros I Hr. destruct st as [qs0 ps tot]. cbn [quotas pods total] in *.
+  apply INV_touch with (ps := ps); [exact I|].
+  intros W. apply nonneg_app; [exact (inv_pods _ _ _ I W)|exact (Hr W)].
+Qed.
+
+Lemma nonneg_set_assigned id b ps :
+  (forall x, In x ps -> vec_nonnegb (p_req x) = true) ->
+  forall x, In x (set_assigned id b ps) -> vec_nonnegb (p_req x) = true.
+Proof.
+  intros H x Hx. apply in_set_assigned in Hx. destruct Hx as (p0 & Hp0 & ->). auto.
+Qed.
+
+Lemma INV_pod_add_bound cfg wf st id qn np req :
+  INV cfg wf st -> (wf = true -> vec_nonnegb req = true) ->
+  let p := mkPod id qn req np false in
+  let ps := pods st ++ [p] in
+  INV cfg wf
+    (charge (mkState (touch_request st p (taint_ids (map q_id (path st qn)) (quotas st)) ps)
+                     ps (total st)) p).
+Proof.
+  intros I Hr p ps'. destruct st as [qs0 ps tot]. cbn [quotas pods total] in *.
+  set (ids0 := map q_id (path (mkState qs0 ps tot) qn)).
+  destruct (touch_request_map (mkState qs0 ps tot) p (taint_ids ids0 qs0) ps') as (h & K & Eh & Ht).
+  assert (Hps' : wf = true -> forall x, In x ps' -> vec_nonnegb (p_req x) = true).
+  { intro W. apply nonneg_app; [exact (inv_pods _ _ _ I W)|exact (Hr W)]. }
+  assert (I1 : INV cfg wf (mkState (touch_request (mkState qs0 ps tot) p (taint_ids ids0 qs0) ps') ps' tot)).
+  { apply INV_touch with (ps := ps); [apply INV_taint; exact I|exact Hps']. }
+  unfold charge. cbn [quotas pods total p_quota p_id p_np].
+  assert (Eids : map q_id (path (mkState (touch_request (mkState qs0 ps tot) p (taint_ids ids0 qs0) ps') ps' tot) qn)
+                 = ids0).
+  { rewrite Eh. unfold taint_ids. rewrite map_map.
+    apply (path_ids_map (fun q => h (taint_fn ids0 q))).
+    apply keeps_compose; [exact K|apply keeps_taint_fn]. }
+  change (p_quota p) with qn. rewrite Eids.
+  apply INV_upd_used with (ps := ps'); [exact I1| |].
+  - intros W q Hq Hid Hnt. exfalso. rewrite Eh in Hq. apply in_map_iff in Hq.
+    destruct Hq as (x & <- & Hx). rewrite Ht in Hnt. destruct (K x) as (Kid & _ & _).
+    rewrite Kid in Hid. pose proof (taint_ids_tainted ids0 qs0 x Hx Hid). congruence.
+  - intro W. apply nonneg_set_assigned. exact (Hps' W).
+Qed.
+
+Lemma INV_charge cfg wf st p q anc :
+  INV cfg wf st -> In p (pods st) ->
+  path st (p_quota p) = q :: anc -> admission cfg st p (q :: anc) = 0 ->
+  INV cfg wf (charge st p).
+Proof.
+  intros I Hp Hpath Hadm. destruct st as [qs0 ps tot]. unfold charge. cbn [quotas pods total] in *.
+  apply INV_upd_used with (ps := ps); [exact I| |].
+  - intros W x Hx Hid Hnt. subst wf.
+    rewrite Hpath in Hid.
+    apply (charge_used_ok cfg (mkState qs0 ps tot) p q anc I (inv_pods _ _ _ I eq_refl p Hp)
+                          Hpath Hadm x Hx Hid Hnt).
+  - intro W. apply nonneg_set_assigned. exact (inv_pods _ _ _ I W).
+Qed.
+
+Lemma INV_refund cfg wf st p ps' :
+  INV cfg wf st -> In p (pods st) ->
+  (wf = true -> forall x, In x ps' -> vec_nonnegb (p_req x) = true) ->
+  INV cfg wf (mkState (refund st p) ps' (total st)).
+Proof.
+  intros I Hp Hps. destruct st as [qs0 ps tot]. unfold refund. cbn [quotas pods total] in *.
+  apply INV_upd_used with (ps := ps); [exact I| |exact Hps].
+  intros W x Hx _ Hnt. subst wf.
+  apply (refund_used_ok cfg (mkState qs0 ps tot) p I (inv_pods _ _ _ I eq_refl p Hp) x Hx Hnt).
+Qed.
+
+(* ---------- every operation ---------- *)
+Theorem INV_step cfg wf st o :
+  INV cfg wf st -> INV cfg (wf && op_okb st o) (fst (step cfg st o)).
+Proof.
+  intro I.
+  assert (Iw : INV cfg (wf && op_okb st o) st).
+  { apply (INV_weaken _ _ _ _ I). intro H. apply andb_true_iff in H. apply H. }
+  assert (Hop : wf && op_okb st o = true -> op_okb st o = true).
+  { intro H. apply andb_true_iff in H. apply H. }
+  destruct o as [id parent lend decl mx mindecl mn w|id mx mindecl mn w|id qn np req|id|id|id|t
+                 |id qn np req|]; unfold step; cbv zeta.
+  - (* quota add *)
+    destruct (id <=? 0) eqn:E0; cbn [orb fst]; [exact Iw|].
+    destruct (find_quota id (quotas st)) eqn:Ef; cbn [orb fst]; [exact Iw|].
+    match goal with |- context [negb ?b] => destruct b eqn:Ep end; cbn [negb fst]; [|exact Iw].
+    apply INV_quota_add; [exact Iw|exact Ef|exact E0| |].
+    + destruct (parent =? 0) eqn:Ez; [left; lia|]. right.
+      destruct (find_quota parent (quotas st)) as [P|]; [exists P; reflexivity|discriminate].
+    + intro W. exact (Hop W).
+  - (* quota update *)
+    destruct (find_quota id (quotas st)) as [q0|] eqn:Ef; cbn [fst]; [|exact Iw].
+    apply (INV_quota_update cfg _ st id q0 mx mindecl mn w); [exact Iw|exact Ef| |].
+    + intro W. specialize (Hop W). cbn [op_okb] in Hop. rewrite Ef in Hop. exact Hop.
+    + intros d Hd.
+      match goal with |- vget (if ?c then _ else _) d <= _ => destruct c eqn:Ec end.
+      * rewrite vget_vmk, Hd. lia.
+      * rewrite any_dim_false in Ec. specialize (Ec d). rewrite Hd in Ec. cbn in Ec.
+        apply negb_false_iff, Z.eqb_eq in Ec. rewrite Ec.
+        apply find_quota_some in Ef. exact (inv_creq _ _ _ I q0 (proj1 Ef) d Hd).
+  - (* pod add *)
+    destruct (find_pod id (pods st)); cbn [fst]; [exact Iw|].
+    destruct (find_quota qn (quotas st)); cbn [fst]; [|exact Iw].
+    apply INV_pod_add; [exact Iw|]. intro W. exact (Hop W).
+  - (* attempt *)
+    destruct (find_pod id (pods st)) as [p|] eqn:Ef; cbn [fst]; [|exact Iw].
+    destruct (path st (p_quota p)) as [|q anc] eqn:Ep.
+    + cbn [admission]. cbn [Z.eqb andb fst]. exact Iw.
+    + destruct (admission cfg st p (q :: anc) =? 0) eqn:Ea; cbn [andb]; [|exact Iw].
+      destruct (p_assigned p); cbn [negb]; [exact Iw|].
+      apply Z.eqb_eq in Ea. apply find_pod_some in Ef.
+      apply (INV_charge cfg _ st p q anc Iw (proj1 Ef) Ep Ea).
+  - (* unreserve *)
+    destruct (find_pod id (pods st)) as [p|] eqn:Ef; cbn [fst]; [|exact Iw].
+    destruct (p_assigned p); cbn [fst]; [|exact Iw].
+    apply find_pod_some in Ef.
+    apply INV_refund; [exact Iw|exact (proj1 Ef)|].
+    intro W. apply nonneg_set_assigned. exact (inv_pods _ _ _ Iw W).
+  - (* pod delete *)
+    destruct (find_pod id (pods st)) as [p|] eqn:Ef; cbn [fst]; [|exact Iw].
+    apply find_pod_some in Ef.
+    assert (Hrm : wf && true = true -> forall x, In x (remove_pod id (pods st)) -> vec_nonnegb (p_req x) = true).
+    { intros W x Hx. apply in_remove_pod in Hx. exact (inv_pods _ _ _ Iw W x Hx). }
+    apply INV_touch with (ps := pods st); [|exact Hrm].
+    destruct (p_assigned p).
+    + apply (INV_refund cfg _ st p (pods st) Iw (proj1 Ef)). exact (inv_pods _ _ _ Iw).
+    + destruct st; exact Iw.
+  - (* capacity *)
+    cbn [fst]. apply (INV_ext _ _ st); [exact Iw|reflexivity|reflexivity].
+  - (* bound pod *)
+    destruct (find_pod id (pods st)); cbn [fst]; [exact Iw|].
+    destruct (find_quota qn (quotas st)); cbn [fst]; [|exact Iw].
+    apply INV_pod_add_bound; [exact Iw|]. intro W. exact (Hop W).
+  - exact Iw.
+Qed.
